@@ -58,6 +58,10 @@ class C02Oracle(Oracle):
                 if v != v or v < 0:
                     self.fail("C02.nonneg", i, op, oc, f"{g.name}{w} holds {v!r} after {op['op']}")
                     return
+        # ---- both limit errors are VolumeViolationExceptions (the statement says so in as many words)
+        if oc in ("VolumeOverflowError", "VolumeUnderflowError") and not isinstance(out.exc, sess.rt.VolumeViolationException):
+            self.fail("C02.class", i, op, oc, f"{oc} is raised but is not a VolumeViolationException")
+            return
         if op["op"] not in LIQ:
             for j in range(n):
                 if now_hex[j] != self.pre_hex[j]:
